@@ -41,6 +41,15 @@ theorem vlq_decode_u64 (l : List UInt8) : (deserializeVLQ l).1 < 2 ^ 64 := Lemma
 integer": the unbounded decoder of the Spec inverts `vlq` on every natural number, so `vlq` is injective. -/
 theorem vlq_injective (n m : Nat) (h : vlq n = vlq m) : n = m := Lemmas.vlq_injective n m h
 
+/-- …and each representation stands for exactly one integer: every well-formed VLQ byte string (bytes ≥ 0x80
+followed by one byte < 0x80, `Lemmas.Terminated`) is exactly the encoding of the value it decodes to — there
+are no redundant (over-long, zero-padded) encodings in the unbounded scheme. -/
+theorem vlq_canonical (l : List UInt8) (ht : Lemmas.Terminated l) : vlq (vlqValue 0 l) = l :=
+  Lemmas.vlq_canonical l ht
+
+example : Lemmas.Terminated [0x80, 0xfe, 0x7f] := by
+  unfold Lemmas.Terminated Lemmas.Terminated Lemmas.Terminated; decide
+
 /-- No encoding is a proper prefix of another: a concatenation of VLQs splits in exactly one way
 (what lets the non-self-describing records be decoded). -/
 theorem vlq_prefix_free (n m : Nat) (hn : n < 2 ^ 64) (hm : m < 2 ^ 64) (r r' : List UInt8)
